@@ -28,6 +28,7 @@ func runC15(c *Ctx) {
 	c15R3(c, "C15.R3")
 	c15R4(c, "C15.R4")
 	c15R5(c, "C15.R5")
+	c15R6(c, "C15.R6")
 	// imported: credit/expiry conditions of authentication and authorisation (clause "a user whose credit is exhausted
 	// or whose expiry has passed cannot start a session")
 	c.importing = "C07"
